@@ -37,6 +37,17 @@ def run(tier, seed, scale=1.0):
     sp = C02.private_spec("legacy", "legacy", seed, opts={"corpus": CORPUS})
     res = vdriver.explore(sp, per, chunk=max(100, min(2000, per // 128)), chunk_timeout=900,
                           stop_after_violations=2000)
+    if tier != "quick":
+        # the same differential under MemorySanitizer on fresh case indices
+        try:
+            spm = C02.private_spec("legacy", "legacy", seed, opts={"corpus": CORPUS}, flavor="msan")
+            nm = int(150000 * scale)
+            rm = vdriver.explore(spm, nm, chunk=max(100, min(2000, nm // 64 or 100)), chunk_timeout=900,
+                                 first=50000000, stop_after_violations=2000)
+            rm.counters = {"msan_" + k: v for k, v in rm.counters.items() if k in ("legacy_calls",)}
+            res.merge(rm)
+        except RuntimeError as e:
+            res.harness_errors.append("msan stage: %r" % (e,))
     C02.drop_private()
     calls = res.counters.get("legacy_calls", 0)
     return common.finish(PROP, tier, seed, "exploration", res, own, RULE, t0,
